@@ -57,10 +57,17 @@ def lifecycle_events(exe, scen, verdict):
     return events
 
 
-def layered_scenarios(rnd, recs3, recs2, budget):
+OPT_ENTRIES = ("std", "rc2cb", "config_dirs", "set_conf_dirs")     # entry points that start from an option-initialised key_file
+
+
+def layered_scenarios(rnd, recs3, recs2, budget, recs4=()):
     scen = []
     pool = [(x, "std") for x in recs3 if len(x["log"]) >= 1] + [(x, e) for x in recs2 if len(x["log"]) >= 1 for e in ("readdirscb", "readhistcb", "rc2cb")]
     rnd.shuffle(pool)
+    # two drop-in directories per layer (CONFIG_DIRS list / econf_set_conf_dirs)
+    pool2 = [(x, e) for x in recs4 if len(x["log"]) >= 2 and any(2 in row for row in x["pd"]) for e in ("config_dirs", "set_conf_dirs")]
+    rnd.shuffle(pool2)
+    pool = pool2[:max(10, budget // 100)] + pool
     for x, ent in pool:
         K = [tuple(f) for f in x["log"]]
         variants = [("none", None)]
@@ -69,6 +76,14 @@ def layered_scenarios(rnd, recs3, recs2, budget):
             variants.append(("owner", f))
             if not (f[1] == 0 and x["main"][f[0] - 1] != "regular"):
                 variants.append(("malformed", f))
+        # symbolic links to nowhere: as main file of each layer in turn (found by lstat, cannot be opened: the scan goes on
+        # below it), and in place of each consulted drop-in (the read fails)
+        for l in range(1, len(x["main"]) + 1):
+            if rnd.random() < 0.5:
+                variants.append(("dangling", (l, 0)))
+        for f in K:
+            if f[1] != 0 and rnd.random() < 0.5:
+                variants.append(("dangling", f))
         for kind, f in variants:
             scen.append((x, ent, kind, f))
         if len(scen) >= budget:
@@ -86,7 +101,8 @@ def check(pid, tier, seed):
         verdict.violation("C20:model", {"tlc": mc.out[-3000:]}, "TLC: lifecycle invariants violated in the model\n" + mc.out[-1500:])
     r3, recs3, _ = tree_export(3, [3, 6], 12, ["bb"])
     r2, recs2, _ = tree_export(2, [3, 6], 12, ["bb"])
-    scen = layered_scenarios(rnd, recs3, recs2, 900 if tier == "quick" else 12000)
+    r4, recs4, _ = tree_export(3, [3, 6], 4, ["bb"], nd=2)
+    scen = layered_scenarios(rnd, recs3, recs2, 900 if tier == "quick" else 12000, recs4)
     cases = []
     meta = []
     for i, (x, ent, kind, f) in enumerate(scen):
@@ -98,6 +114,8 @@ def check(pid, tier, seed):
             kw["flags"] = {"owner": 1}
         elif kind == "malformed":
             kw["malformed"] = [f]
+        elif kind == "dangling":
+            kw["dangling"] = [f]
         sc, paths, K, shape = scenario_script(i, x, ent, heap=True, **kw)
         cases.append((i, sc))
         meta.append((paths, K, kw))
@@ -117,10 +135,10 @@ def check(pid, tier, seed):
         end = [e for e in evs if e["e"] == "end"][0]
         heaps = [e["bytes"] for e in out["ev"] if e["op"] == "heap"]
         lev.append({"e": "scenario", "name": "%s:%s@%s" % (ent, kind, list(f) if f else "-"), "call": "read", "ok": end["rc"] == "ECONF_SUCCESS",
-                    "init": "object" if ent in ("std", "rc2cb") else "null",
-                    "outptr": "valid" if end["has_obj"] else ("unchanged" if ent in ("std", "rc2cb") else "null"),
+                    "init": "object" if ent in OPT_ENTRIES else "null",
+                    "outptr": "valid" if end["has_obj"] else ("unchanged" if ent in OPT_ENTRIES else "null"),
                     "heap_delta": heaps[1] - heaps[0] if len(heaps) == 2 else 999999, "free_null_ok": True})
-        if f is not None and K.index(f) >= 1:
+        if f is not None and (f not in K or K.index(f) >= 1):
             nn += 1
 
     def fp(begin, ev):
@@ -192,7 +210,7 @@ def check(pid, tier, seed):
         nvg = valgrind_sample(cases, rnd, verdict)
     rc = verdict.finish()
     cov = {"evaluations": len(scen) + len(single), "distinct_nontrivial": nn + sum(1 for s in single if s["init"] == "object" or s["name"].startswith("newopt")),
-           "rule": "fault enumeration: %d layered-read scenarios = trees (3 layers via econf_readConfigWithCallback with an option-initialised key_file; 2 layers via econf_readDirsWithCallback, econf_readDirsHistoryWithCallback, econf_readConfigWithCallback+PARSING_DIRS) x {no fault} + for EACH consulted file in turn {callback rejection, foreign owner under econf_requireOwner, malformed line}; + %d single calls on failing paths (missing / malformed file, rejected single file, unknown and repeated option items, no file with NULL- and option-initialised key_file, NULL arguments, merge with NULL, free(NULL)) and %d random API histories of 5..60 calls. Every scenario runs twice in one process; ASan's live-byte count around the second run must not move after the caller released all valid handles (Trace_Lifecycle: heap_delta = 0, out-pointer in OutPtrAllowed, free functions return NULL; Trace_Layers: return code, callbacks, content). ASan aborts on double free / use after free. valgrind memcheck sample: %d. non-trivial = fault at a position >= 2 or an option-initialised key_file." % (
+           "rule": "fault enumeration: %d layered-read scenarios = trees (3 layers via econf_readConfigWithCallback with an option-initialised key_file; 2 layers via econf_readDirsWithCallback, econf_readDirsHistoryWithCallback, econf_readConfigWithCallback+PARSING_DIRS) x {no fault} + for EACH consulted file in turn {callback rejection, foreign owner under econf_requireOwner, malformed line, drop-in that is a symbolic link to nowhere} and main files that are symbolic links to nowhere in each layer; + %d single calls on failing paths (missing / malformed file, rejected single file, unknown and repeated option items, no file with NULL- and option-initialised key_file, NULL arguments, merge with NULL, free(NULL)) and %d random API histories of 5..60 calls. Every scenario runs twice in one process; ASan's live-byte count around the second run must not move after the caller released all valid handles (Trace_Lifecycle: heap_delta = 0, out-pointer in OutPtrAllowed, free functions return NULL; Trace_Layers: return code, callbacks, content). ASan aborts on double free / use after free. valgrind memcheck sample: %d. non-trivial = fault at a position >= 2 or an option-initialised key_file." % (
                len(scen), len(single) - nh, nh, nvg),
            "samples": lev[:2] + lev[-1:], "exhaustive": False, "model_states": mc.distinct, "traces_validated_against_impl": len(lev) - len(mism),
            "trusted_base": ["gcc ASan allocator accounting (__sanitizer_get_current_allocated_bytes)", "TLC 1.8.0", "drv.c", "valgrind memcheck (thorough)"]}
